@@ -841,6 +841,20 @@ def make_check_C05(tier):
         spec["blockaux"] = True
         spec["mods"] = _c.deepcopy(mods)
         chk.add("blockaux/%s/%s" % (lay, rewrite_shapes.mods_name(mods)), h_rewrite, params=dict(spec=spec, props=["C05"]), timeout=900)
+    # one proxy shared by the return edges of several functions: a patch that calls one of them must not take it away
+    for term, mods in (("ret", [ins("b0", 1, "call:s2")]), ("ret", [ins("b2", 1, "call:s0")]), ("ret", [rewrite_shapes.rep("b0", 0, 1, "call:s2")]),
+                       ("ret", [ins("b0", 1, "call:s2"), dele("b1", 2, 3)]), ("jmp:s0", [ins("b0", 0, "call:s2")])):
+        spec = rewrite_shapes.text_layout(term)
+        spec["shared_ret_proxy"] = True
+        spec["mods"] = _c.deepcopy(mods)
+        chk.add("shared-proxy/%s/%s" % (term, rewrite_shapes.mods_name(mods)), h_rewrite, params=dict(spec=spec, props=["C05"]), timeout=900)
+    # alignment entries of an existing block and of a patch's first block meeting at offset 0
+    for b1a, patch in ((16, "lead_align4"), (4, "lead_align16"), (4, "lead_align4")):
+        spec = rewrite_shapes.text_layout("o", annots=False)
+        spec["sections"][0]["blocks"][1]["align"] = b1a
+        spec["aligned_base"] = True
+        spec["mods"] = [ins("b1", 0, patch)]
+        chk.add("align-meet/b1a%d/%s" % (b1a, patch), h_rewrite_closed_only, params=dict(spec=spec), timeout=900)
     chk.bounds["block-keyed tables"] = ("types/encodings on every data block, sccs/profile on every code block of the layout; "
                                         ".string patches (the assembler records an encoding for their block)")
     chk.bounds["fault injection"] = "an exception raised from the k-th Patch.get_asm callback, every k up to the number of patches"
